@@ -708,7 +708,8 @@ func init() {
 			"on each cell exactly one path must be feasible and its return class (nil / non-nil) must equal the property's predicate (R14.1: 32 flag sets x formats x password hashes x single fields and all field pairs; R14.2: full product). " +
 			"R14.3: from GenerateOCRA and ValidateOCRA, with parameters bound through every call and closure, the value handed to OCRAInput.Validate is the caller's own input, validated against Config() of the caller's own suite, both validators gate pool/HMAC use, and no other branch on the path conditions on the input. " +
 			"R14.5: the exported enumerators ChallengeNone…ChallengeHex10 and PasswordNone…PasswordSHA512 have the documented numeric values (the REST fields challenge_format / password_hash and the JSON form of SuiteConfig carry the bare numbers, so a regrouped const block silently selects other admitted lengths); R14.6: NewSuite returns exactly the configuration it was given (it neither completes nor replaces it around validating it). " +
-			"Abstract interpretation only; nothing is executed. Domain: defined challenge formats / password hashes (others are documented as lenient); user-defined Suite implementations excluded by the property.",
+			"Abstract interpretation only; nothing is executed. Domain: defined challenge formats / password hashes (others are documented as lenient); user-defined Suite implementations excluded by the property. " +
+			"R14.7 HexInputToOCRA sets each field from the hex bytes of its own argument (an omitted field stays nil).",
 		assume:   []string{"enumerators outside the defined ChallengeFormat / PasswordHashAlgorithm constants are outside the property's domain"},
 		quick:    []Config{CfgNative},
 		thorough: []Config{CfgNative, Cfg386},
